@@ -70,6 +70,7 @@ RULE = (
 ASSUMPTIONS = [
     "tornado's three loggers are disabled as in the repository's test-suite: access-log lines about a refused request appended to the event store are not a state change",
     "routes served by tornado.web.StaticFileHandler are not application routes (DESIGN 3.6)",
+    "400 instead of 403 is accepted only when the credential itself makes the request malformed HTTP (query not decodable as UTF-8, NUL in a header value): the framework rejects it before the application runs",
     "405 instead of 403 is accepted for an unauthenticated request only if the route's handler class does not implement the method (DESIGN 3.5)",
     "Sec-Fetch-Site values other than same-origin/none/same-site/cross-site and non-browser credential placements (token in a form body, lower-case 'bearer') are not judged",
     "the state digest covers view flows, options, events, replay queue, websocket connections and the token; files on disk are not observed",
@@ -149,6 +150,13 @@ def hostile_body(path: str, method: str, flowdump: bytes):
 
 def classify(item, status):
     """Mechanism from properties of the request only."""
+    if (
+        item["cred"] in pol.CRED_NONASCII
+        and (not item["cred"].startswith("form-") or item["method"] not in pol.SAFE_METHODS)
+        and status == 500
+    ):
+        # refused, but by an internal error: the plaintext password comparison cannot handle non-ASCII text
+        return "non-ascii-password-crashes-the-comparison"
     if (
         not pol.CRED_VALID[item["cred"]]
         and item["method"] not in pol.SAFE_METHODS
@@ -299,8 +307,9 @@ async def do_http(ctx, rig, plan, item, flowdump):
     if q:
         target += "?" + urllib.parse.urlencode(q)
     ctype, body = hostile_body(item["path"], method, flowdump)
-    if xf and method not in pol.SAFE_METHODS:
-        ctype, body = "application/x-www-form-urlencoded", urllib.parse.urlencode(xf).encode()
+    cf = pol.build_cred_form(item["cred"], token=rig.token, rng=r)
+    if (xf or cf) and method not in pol.SAFE_METHODS:
+        ctype, body = "application/x-www-form-urlencoded", urllib.parse.urlencode(xf + cf).encode()
     elif xf:
         # a form body on a safe method is not sent; the token then is simply missing (still an invalid XSRF form for GET: irrelevant)
         pass
@@ -332,13 +341,20 @@ async def do_http(ctx, rig, plan, item, flowdump):
     ctx.seen("statuses", f"{'auth' if cred_valid else 'unauth'}:{resp.status}")
     if exp["must_403"]:
         ctx.count("unauth_status")
-        if not (resp.status == 403 or (resp.status == 405 and not impl)):
+        malformed_ok = resp.status == 400 and item["cred"] in pol.CRED_MALFORMED
+        if not (resp.status == 403 or (resp.status == 405 and not impl) or malformed_ok):
             ctx.violation("unauth-status", dict(wit, body=short(resp.body, 200)), mechanism=classify(item, resp.status))
         ctx.count("unauth_no_disclosure")
         if tag_in(resp.raw) or tag_in(resp.body):
             ctx.violation("unauth-discloses-tagged-data", dict(wit, body=short(resp.body, 300)))
-        if any(rig.auth_cookie_name in v for v in resp.header_all("set-cookie")):
-            ctx.violation("unauth-receives-session-cookie", dict(wit, set_cookie=resp.header_all("set-cookie")))
+        issued = [v.split(";")[0] for v in resp.header_all("set-cookie") if rig.auth_cookie_name in v]
+        if issued:
+            follow = None
+            try:
+                follow = (await rig.request("GET", "/flows", [("Cookie", issued[0])], None)).status
+            except (asyncio.TimeoutError, ValueError, ConnectionError):
+                pass
+            ctx.violation("unauth-receives-session-cookie", dict(wit, set_cookie=issued, follow_up_get_flows_with_that_cookie=follow))
         ctx.count("unauth_no_state_change")
         if changed:
             ctx.violation("unauth-changes-state", dict(wit, diff=state_diff(rig)))
@@ -407,8 +423,8 @@ async def do_ws(ctx, rig, plan, item):
     ctx.seen("statuses", f"ws-{'auth' if cred_valid else 'unauth'}-{item['origin']}:{resp.status}")
     if not cred_valid:
         ctx.count("ws_unauth_refused")
-        if resp.status != 403:
-            ctx.violation("ws-unauth-status", wit)
+        if resp.status != 403 and not (resp.status == 400 and item["cred"] in pol.CRED_MALFORMED):
+            ctx.violation("ws-unauth-status", wit, mechanism=classify(item, resp.status))
         if tag_in(resp.raw) or tag_in(after):
             ctx.violation("ws-unauth-receives-updates", dict(wit, data=short(after, 200)))
         if any(rig.auth_cookie_name in v for v in resp.header_all("set-cookie")):
@@ -459,7 +475,8 @@ async def do_history(ctx, rig):
         return urllib.parse.parse_qs(q).get("token", [""])[0]
 
     used = []  # passwords that were valid at some time AND authenticated successfully (what a cache could remember)
-    never = [fresh(), rig.token[:-1] + ("0" if rig.token[-1] != "0" else "1")]
+    never = [fresh(), rig.token[:-1] + ("0" if rig.token[-1] != "0" else "1"), r.choice(["p\u00e4ssw\u00f6rd-\u00e9", "\u00e9", rig.token[:-1] + "\u00ff"])]
+    current_is_plain = True
     plains = []
     current = rig.token
     n_phases = r.randint(3, 6)
@@ -517,7 +534,11 @@ async def do_history(ctx, rig):
                 ctx.seen("hist_current_password_refused", f"{kinds[-1]} via {channel}")
             return
         ctx.count("hist_stale_password_refused" if label.startswith("previously-valid") else "hist_invalid_password_refused")
-        if resp.status != 403:
+        if resp.status >= 500:
+            nonascii = (not secret.isascii()) or (current_is_plain and not current.isascii())
+            mech = "non-ascii-password-crashes-the-comparison" if (nonascii and current_is_plain and resp.status == 500) else None
+            ctx.violation("unauth-status", dict(wit, body=short(resp.body, 160)), mechanism=mech)
+        elif resp.status != 403:
             ctx.violation("password-not-matching-current-web_password-accepted", dict(wit, body=short(resp.body, 160)))
         if tag_in(resp.raw) or tag_in(resp.body):
             ctx.violation("unauth-discloses-tagged-data", dict(wit, body=short(resp.body, 200)))
@@ -545,12 +566,15 @@ async def do_history(ctx, rig):
 
     await round_of_probes()
     for _ in range(n_phases):
-        kind = r.choice(["plain", "plain", "argon2", "empty", "revisit"])
+        kind = r.choice(["plain", "plain", "plain", "argon2", "argon2", "empty", "empty", "revisit", "revisit", "plain-nonascii"])
         if kind == "revisit" and not plains:
             kind = "plain"
         extra = []
         if kind == "plain":
             value = secret = fresh()
+            plains.append(secret)
+        elif kind == "plain-nonascii":
+            value = secret = fresh() + r.choice(["\u00e9", "\u00fc\u00df"])
             plains.append(secret)
         elif kind == "revisit":
             value = secret = r.choice(plains)
@@ -583,6 +607,7 @@ async def do_history(ctx, rig):
             if not secret:
                 raise Inconclusive("cannot learn the generated token from web_url")
         current = secret
+        current_is_plain = kind != "argon2"
         kinds.append(kind + ("/api" if via_api else "/options"))
         ctx.count("hist_password_changes")
         await round_of_probes(extra)
